@@ -36,15 +36,18 @@ pub fn check_showdown(players: &Vec<CardPair>, board: [Card; 5]) -> Result<Strin
             if sd.players().len() != players.len() { return Err(format!("{} -> {} players", desc, sd.players().len())); }
             if sd.board() != &board { return Err(format!("{} -> board changed", desc)); }
             if sd.probability() != 0.5 { return Err(format!("{} -> probability {}", desc, sd.probability())); }
+            // what each player's hand evaluates to on the real crate (the showdown must carry exactly that) ...
             let idx: Vec<u16> = players.iter().map(|p| MadeHand::from([p[0], p[1], board[0], board[1], board[2], board[3], board[4]]).power_index()).collect();
-            let best = *idx.iter().min().unwrap_or(&0);
+            // ... and the TRUE strength (first principles: best of the 21 five-card sub-hands), which decides the winners
+            let truth: Vec<u16> = players.iter().map(|p| class7_fp(&[p[0], p[1], board[0], board[1], board[2], board[3], board[4]])).collect();
+            let best = *truth.iter().min().unwrap_or(&0);
             let mut wins = 0;
             for (i, sp) in sd.players().iter().enumerate() {
                 if sp.hole_cards() != players[i] { return Err(format!("{} -> player {} hole cards {:?}", desc, i, sp.hole_cards())); }
                 if sp.board() != board { return Err(format!("{} -> player {} board", desc, i)); }
                 if sp.hand().power_index() != idx[i] { return Err(format!("{} -> player {} hand {} want {}", desc, i, sp.hand().power_index(), idx[i])); }
-                let want = idx[i] == best;
-                if sp.is_winner() != want { return Err(format!("{} -> player {} winner flag {} want {} (indexes {:?})", desc, i, sp.is_winner(), want, idx)); }
+                let want = truth[i] == best;
+                if sp.is_winner() != want { return Err(format!("{} -> player {} winner flag {} want {} (true strength classes {:?})", desc, i, sp.is_winner(), want, truth)); }
                 if want { wins += 1; }
                 let c = sp.cards();
                 if c != [board[0], board[1], board[2], board[3], board[4], players[i][0], players[i][1]] { return Err(format!("{} -> player {} cards()", desc, i)); }
